@@ -8,7 +8,12 @@
 #include <cstring>
 #include <string>
 
+#include <algorithm>
+#include <functional>
+#include <vector>
+
 #include "corecel/grid/UniformGrid.hh"
+#include "corecel/math/Algorithms.hh"
 #include "corecel/grid/UniformGridData.hh"
 #include "native_stubs.hh"
 
@@ -67,6 +72,76 @@ int main(int argc, char** argv)
             }
         std::printf("ok ugrid_search: no failing input\n");
         return 0;
+    }
+    if (mode == "algo_battery")
+    {
+        // every sequence of length <= 6 over {0,1,2,3}: celeritas algorithms vs the standard library
+        int bad = 0;
+        for (int len = 0; len <= 6 && !bad; ++len)
+        {
+            long total = 1;
+            for (int i = 0; i < len; ++i) total *= 4;
+            for (long code = 0; code < total && !bad; ++code)
+            {
+                std::vector<unsigned> v(len);
+                long c = code;
+                for (int i = 0; i < len; ++i) { v[i] = c % 4; c /= 4; }
+                auto show = [&](char const* what) {
+                    std::printf("REPRODUCED %s differs from the standard library on {", what);
+                    for (auto x : v) std::printf("%u ", x);
+                    std::printf("}\n");
+                    bad = 1;
+                };
+                if ((celeritas::min_element(v.begin(), v.end()) - v.begin()) != (std::min_element(v.begin(), v.end()) - v.begin())) show("min_element");
+                {
+                    auto a = v, b = v;
+                    celeritas::sort(a.begin(), a.end());
+                    std::sort(b.begin(), b.end());
+                    if (a != b) show("sort");
+                    for (unsigned q = 0; q < 5 && !bad; ++q)
+                    {
+                        if ((celeritas::lower_bound(b.begin(), b.end(), q) - b.begin()) != (std::lower_bound(b.begin(), b.end(), q) - b.begin())) show("lower_bound");
+                        if ((celeritas::upper_bound(b.begin(), b.end(), q) - b.begin()) != (std::upper_bound(b.begin(), b.end(), q) - b.begin())) show("upper_bound");
+                        if ((celeritas::lower_bound_linear(b.begin(), b.end(), q) - b.begin()) != (std::lower_bound(b.begin(), b.end(), q) - b.begin())) show("lower_bound_linear");
+                    }
+                }
+                for (unsigned mask = 0; mask < 16 && !bad; ++mask)
+                {
+                    auto a = v;
+                    auto pred = [mask](unsigned x) { return ((mask >> x) & 1u) != 0; };
+                    auto it = celeritas::partition(a.begin(), a.end(), pred);
+                    bool ok = std::is_partitioned(a.begin(), a.end(), pred) && std::partition_point(a.begin(), a.end(), pred) == it;
+                    auto s1 = a, s2 = v;
+                    std::sort(s1.begin(), s1.end());
+                    std::sort(s2.begin(), s2.end());
+                    if (!ok || s1 != s2) show("partition");
+                }
+            }
+        }
+        // integer helpers against 128-bit exact arithmetic at boundary operands
+        unsigned long long tops[] = {0ull, 1ull, 31ull, 32ull, 33ull, 0xfffffffeull, 0xffffffffull, 0x100000000ull, 0xfffffffffffffffeull, 0xffffffffffffffffull};
+        unsigned long long bots[] = {1ull, 2ull, 7ull, 32ull, 256ull, 0xffffffffull, 0x100000000ull, 0xffffffffffffffffull};
+        for (auto t : tops)
+            for (auto b : bots)
+            {
+                unsigned __int128 exact = ((unsigned __int128)t + b - 1) / b;
+                if (celeritas::ceil_div<unsigned long long>(t, b) != (unsigned long long)exact)
+                {
+                    std::printf("REPRODUCED ceil_div<u64>(%llu, %llu) = %llu, exact %llu\n", t, b, celeritas::ceil_div<unsigned long long>(t, b), (unsigned long long)exact);
+                    bad = 1;
+                }
+                if (t <= 0xffffffffull && b <= 0xffffffffull)
+                {
+                    unsigned long long e32 = ((unsigned long long)t + b - 1) / b;
+                    if (celeritas::ceil_div<unsigned>(t, b) != (unsigned)e32)
+                    {
+                        std::printf("REPRODUCED ceil_div<u32>(%llu, %llu) = %u, exact %llu\n", t, b, celeritas::ceil_div<unsigned>(t, b), e32);
+                        bad = 1;
+                    }
+                }
+            }
+        if (!bad) std::printf("ok algo_battery: no mismatch\n");
+        return bad;
     }
     return 2;
 }
